@@ -61,7 +61,7 @@ def ref_parse(stream: bytes):
                     return out, "malformed:transfer-encoding"
                 chunked = True
             elif name == "Content-Length":
-                if not re.fullmatch(r"[0-9]+", value):
+                if not re.fullmatch(r"[0-9]{1,18}", value):      # strict: no absurd lengths (CPython refuses > 4300 digits)
                     return out, "malformed:content-length"
                 clen = int(value)
             headers.append((name, value))
